@@ -142,7 +142,7 @@ static void shapes_build(int idx, int tier, long seed, struct kx_set* out)
    eight records (4), length change of each relative in {-1, 0, +1} (3^5)) */
 #define SH_NTIE_EQ (2 * 56 * 4)   /* all eight of equal length: every pair ties; every choice of 3 of the 8 records as the copies */
 #define SH_NTIE (SH_NTIE_EQ + 243)
-static void sh_tie_build(int k, struct kx_set* out)
+static void sh_tie_build_scaled(int k, int plen, struct kx_set* out)
 {
         static char P[1200], tmp[1200];
         int eq = k < SH_NTIE_EQ;
@@ -169,21 +169,21 @@ static void sh_tie_build(int k, struct kx_set* out)
                 }
         }
         kx_set_init(out);
-        sh_random_seq(&st, alpha, 1060, P);
+        sh_random_seq(&st, alpha, plen + 30, P);
         for(i = 0; i < 8; i++){
                 int copy = (i == WHERE[0] || i == WHERE[1] || i == WHERE[2]);
                 strcpy(tmp, P);
                 if(!copy && eq){
                         /* a run of five equal residues inserted in the tail, the end cut by five: same length as the copies */
-                        int ins = 1033 + 3 * ((nx * mult + shift) % 7), q;
+                        int ins = plen + 3 + 3 * ((nx * mult + shift) % 7), q;
                         memmove(tmp + ins + 5, tmp + ins, strlen(tmp + ins) + 1);
                         for(q = 0; q < 5; q++){
                                 tmp[ins + q] = protein ? 'W' : 'T';
                         }
-                        tmp[1060] = 0;
+                        tmp[plen + 30] = 0;
                         nx++;
                 }else if(!copy){
-                        int d = dl % 3 - 1, del = 1035 + 4 * nx, ins = 1052 - 3 * nx;
+                        int d = dl % 3 - 1, del = plen + 5 + 4 * nx, ins = plen + 22 - 3 * nx;
                         dl /= 3;
                         if(d <= 0){
                                 memmove(tmp + del, tmp + del + 1, strlen(tmp + del + 1) + 1);
@@ -197,5 +197,9 @@ static void sh_tie_build(int k, struct kx_set* out)
                 }
                 kx_set_addf(out, tmp, "t%d", i);       /* neutral names: the canonical (length, name) order interleaves copies and relatives as the layout says */
         }
+}
+static void sh_tie_build(int k, struct kx_set* out)
+{
+        sh_tie_build_scaled(k, 1030, out);
 }
 #endif
